@@ -98,6 +98,21 @@ def sequences(tier, rnd):
         for i in range(goal * 3):
             s += [1 + (i >> j & 1) for j in range(5)] * 2
         add("manyrules", s + [0])
+    # the HASHRPF layout: words ended by M = (largest byte + 1), separated by 0, and NO final 0 - the last cell of the
+    # sequence is an ordinary symbol (end-of-sequence bookkeeping of the pair replacement)
+    for i in range(40 if not big else 400):
+        sigma = rnd.choice([2, 3, 4])
+        k = rnd.choice([3, 5, 6, 8, 12])
+        suf = [rnd.randint(1, sigma) for _ in range(rnd.choice([1, 2, 2, 3]))]
+        words = []
+        for _ in range(k):
+            w = [rnd.randint(1, sigma) for _ in range(rnd.choice([0, 1, 2, 3]))] + (suf if rnd.random() < 0.8 else [rnd.randint(1, sigma)])
+            words.append(w)
+        M = sigma + 1
+        s = []
+        for j, w in enumerate(words):
+            s += w + [M] + ([0] if j < len(words) - 1 else [])
+        add("hashrpf", s)
     # random
     nr = 60 if not big else 900
     for i in range(nr):
